@@ -150,7 +150,7 @@ def aff_congruent(a, b, m):
 
 class St:
     """one disjunct of abstract state"""
-    __slots__ = ('frames', 'iv', 'rel', 'objs', 'discr', 'trace', 'loops', 'dead', 'notes', 'lin')
+    __slots__ = ('frames', 'iv', 'rel', 'objs', 'discr', 'trace', 'loops', 'dead', 'notes', 'lin', 'tested')
 
     def __init__(self):
         self.frames = {}
@@ -163,6 +163,7 @@ class St:
         self.dead = False
         self.notes = ()
         self.lin = ()     # assumed linear facts: tuple of (Aff, lo, hi)
+        self.tested = frozenset()   # vids / ('discr', enum path) the path condition of this disjunct depends on
 
     def clone(self):
         s = St()
@@ -175,6 +176,7 @@ class St:
         s.loops = dict(self.loops)
         s.notes = self.notes
         s.lin = self.lin
+        s.tested = self.tested
         return s
 
 
@@ -837,3 +839,32 @@ def _to_zero(d, m, depth, seen, st=None):
                 if cand is not None and _to_zero(cand, m, depth - 1, seen, st):
                     return True
     return False
+
+
+def sources(vids, limit=20000):
+    """entry symbols / opaque values a set of vids is computed from (transitive closure over defining terms and affine forms)"""
+    out = set()
+    seen = set()
+    work = [v for v in vids if isinstance(v, int)]
+    tags = {v for v in vids if not isinstance(v, int)}
+    while work and len(seen) < limit:
+        v = work.pop()
+        if v in seen or v in CONSTVAL:
+            continue
+        seen.add(v)
+        t = TERM.get(v)
+        a = AFF.get(v)
+        expanded = False
+        if t is not None and t[0] != 'const':
+            for o in t[1:]:
+                if isinstance(o, int):
+                    work.append(o)
+                    expanded = True
+        if a is not None:
+            for y in a.co:
+                if y != v:
+                    work.append(y)
+                    expanded = True
+        if not expanded:
+            out.add(v)
+    return out, tags
